@@ -20,6 +20,8 @@ def run(ctx):
         _ir.check_programs(ctx, meta, ['Analysis.Distinct'], 'c07_check', None, 'aliasing / population size', 'C07_ir')
     ctx.cov['rule'] = ('theorem for every IR program, every oracle/objective/box/iteration count; T2 aborts on aliasing; run monitor: '
                        'len(agents), shapes and pairwise np.shares_memory at every hook and at return, poke test at return')
+    if ok:
+        _ir.trace_inclusion(ctx, meta)
     _ir.monitor(ctx)
     _ir.translation_failures(ctx, errors)
     ctx.sample({'theorem': 'C07_ir: forall p ... Inv n sp x0 -> run p o x0 = Some (x\', evs, o\') -> at every EvHook y / EvDump y and for x\': '
